@@ -100,6 +100,33 @@ fn positions(cx: &mut Cx, lo: usize, hi: usize) -> Vec<usize> {
     v
 }
 
+/// Now and then the judged query is also put through the top-level registry (what the JS wrapper calls), under an id
+/// that has just been used with ANOTHER language and the very same text, then destroyed and created again: if the bare
+/// store found the record, so must the registry store holding it.
+fn registry_echo(cx: &mut Cx, lang: &'static str, rec: &Rec, q: &str, bare: &[usize]) {
+    if !bare.contains(&rec.0) || !cx.rng.chance(1, 60) {
+        return;
+    }
+    let id = (cx.idx as usize + 5_000_000) * 2 + 1;
+    let other = LANGS[((cx.idx + 3) % NL) as usize];
+    cx.ctx(format!("registry echo lang={} (id used with lang {} before) title={:?} q={:?}", lang, other, rec.1, q));
+    create_store(id, take_lang(other));
+    add_record(id, 1, "metal mailbox", 1);
+    run_search(id, q);
+    destroy_store(id);
+    create_store(id, take_lang(lang));
+    add_record(id, rec.0, &rec.1, rec.2);
+    run_search(id, q);
+    let ids: Vec<usize> = using_results(id, |b| b.iter().map(|r| r.id).collect());
+    destroy_store(id);
+    cx.eval();
+    cx.count("judged queries echoed through the registry after a locale switch of the id");
+    if !ids.contains(&rec.0) {
+        cx.fail("not-found-through-the-registry", json!({"lang": lang, "history": format!("create(id, {}), run_search(id, q), destroy(id), create(id, {}), add_record(record), run_search(id, q)", other, lang),
+            "record": {"id": rec.0, "title": rec.1, "rating": rec.2}, "query": q, "bare_store_found_it": true, "registry_ids": ids}));
+    }
+}
+
 fn lead_in(cx: &mut Cx, st: &mut St, q: &str) {
     if cx.rng.chance(1, 24) {
         // the very same query just before, under a lower limit (0, 1 or 2), which is then restored: whatever the store
@@ -187,6 +214,7 @@ impl Finds {
                         cx.ctx(format!("C03 lang={} title={:?} q={:?}", lang, rec.1, q));
                         lead_in(cx, st, &q);
                         let got = st.search_ids(&q);
+                        registry_echo(cx, st.lang, rec, &q, &got);
                         cx.eval();
                         cx.key(hparts(&[lang, &s(&cs), &plen.to_string()]));
                         cx.count(match plen {
@@ -286,6 +314,7 @@ impl Finds {
                             cx.ctx(format!("C04 lang={} title={:?} q={:?}", lang, rec.1, q));
                             lead_in(cx, st, &q);
                             let got = st.search_ids(&q);
+                            registry_echo(cx, st.lang, rec, &q, &got);
                             cx.eval();
                             cx.key(hparts(&[lang, &q, &s(&cs)]));
                             cx.count(kind_name);
@@ -312,6 +341,7 @@ impl Finds {
                 cx.ctx(format!("C13 lang={} title={:?}", lang, rec.1));
                 lead_in(cx, st, &rec.1);
                 let got = st.search_ids(&rec.1);
+                registry_echo(cx, st.lang, rec, &rec.1, &got);
                 cx.eval();
                 cx.key(hparts(&[lang, &rec.1, "whole"]));
                 cx.count("whole title");
@@ -340,6 +370,7 @@ impl Finds {
                         cx.ctx(format!("C13 lang={} title={:?} q={:?}", lang, rec.1, q));
                         lead_in(cx, st, &q);
                         let got = st.search_ids(&q);
+                        registry_echo(cx, st.lang, rec, &q, &got);
                         cx.eval();
                         cx.key(hparts(&[lang, &rec.1, name]));
                         cx.count(name);
@@ -384,6 +415,7 @@ impl Finds {
                             cx.ctx(format!("C14 lang={} title={:?} q={:?}", lang, rec.1, q));
                             lead_in(cx, st, &q);
                             let got = st.search_ids(&q);
+                            registry_echo(cx, st.lang, rec, &q, &got);
                             cx.eval();
                             cx.key(hparts(&[lang, &q, "split"]));
                             cx.count("split");
@@ -420,6 +452,7 @@ impl Finds {
                     cx.ctx(format!("C14 lang={} title={:?} q={:?}", lang, rec.1, q));
                     lead_in(cx, st, &q);
                     let got = st.search_ids(&q);
+                    registry_echo(cx, st.lang, rec, &q, &got);
                     cx.eval();
                     cx.key(hparts(&[lang, &rec.1, &q, "join"]));
                     cx.count("join");
@@ -512,6 +545,7 @@ impl Finds {
             cx.ctx(format!("C04 exhaustive lang={} title={:?} q={:?}", lang, rec.1, q));
             lead_in(cx, &mut st, &q);
             let got = st.search_ids(&q);
+            registry_echo(cx, st.lang, &rec, &q, &got);
             cx.eval();
             cx.count("exhaustive-letter edits");
             cx.key(hparts(&[lang, &q, &s(&cs)]));
@@ -550,10 +584,10 @@ impl Prop for Finds {
     }
     fn floors(&self) -> Vec<(&'static str, u64, u64)> {
         match self.0 {
-            Which::Prefix => vec![("prefix len 1", 500, 5000), ("prefix len 2", 500, 5000), ("prefix len >3", 2000, 20000), ("word with stem < len", 200, 2000), ("function word", 20, 200), ("word > 20 letters", 20, 200), ("judged queries preceded by the same query under a lower limit", 1000, 10000), ("stores with a title in letters outside the BMP", 20, 200), ("stores with a word (or word pair) of more than 1024 letters", 2, 20), ("stores cleared and refilled before the judged searches", 100, 1000), ("judged queries preceded by the searches of a person typing them", 5000, 50000), ("titles with more than 20 words", 100, 1000)],
-            Which::Typo => vec![("substitution at first", 50, 500), ("insertion at first", 50, 500), ("deletion at first", 50, 500), ("transposition at first", 50, 500), ("transposition at last", 50, 500), ("len 5", 200, 2000), ("len >20", 100, 1000), ("judged queries preceded by the same query under a lower limit", 1000, 10000), ("stores with a title in letters outside the BMP", 20, 200), ("stores with a word (or word pair) of more than 1024 letters", 2, 20), ("stores cleared and refilled before the judged searches", 100, 1000), ("typo letter that is an accented letter of the language", 3000, 30000), ("judged queries preceded by the searches of a person typing them", 5000, 50000), ("titles with more than 20 words", 30, 300), ("exhaustive-letter edits", 30000, 250000), ("exhaustive-letter words that are function words", 150, 150)],
-            Which::Whole => vec![("whole title", 1000, 10000), ("first last", 300, 3000), ("judged queries preceded by the same query under a lower limit", 1000, 10000), ("stores with a title in letters outside the BMP", 20, 200), ("stores with a word (or word pair) of more than 1024 letters", 2, 20), ("stores cleared and refilled before the judged searches", 100, 1000), ("judged queries preceded by the searches of a person typing them", 5000, 50000), ("last first", 300, 3000), ("title with function word", 50, 500), ("titles with more than 20 words", 200, 2000), ("catalogues searched while small, then grown and given limit = N", 6, 60), ("titles with more than 65 536 distinct grams", 1, 10)],
-            Which::SplitJoin => vec![("split", 2000, 20000), ("split after first letter", 200, 2000), ("judged queries preceded by the same query under a lower limit", 1000, 10000), ("stores with a title in letters outside the BMP", 20, 200), ("stores with a word (or word pair) of more than 1024 letters", 2, 20), ("stores cleared and refilled before the judged searches", 100, 1000), ("judged queries preceded by the searches of a person typing them", 5000, 50000), ("join", 100, 1000), ("join with 1-letter first word", 3, 30), ("titles with more than 20 words", 100, 1000), ("split followed by a separator", 20000, 200000), ("split next to symbols inside the word", 300, 3000)],
+            Which::Prefix => vec![("prefix len 1", 500, 5000), ("prefix len 2", 500, 5000), ("prefix len >3", 2000, 20000), ("word with stem < len", 200, 2000), ("function word", 20, 200), ("word > 20 letters", 20, 200), ("judged queries echoed through the registry after a locale switch of the id", 500, 5000), ("judged queries preceded by the same query under a lower limit", 1000, 10000), ("stores with a title in letters outside the BMP", 20, 200), ("stores with a word (or word pair) of more than 1024 letters", 2, 20), ("stores cleared and refilled before the judged searches", 100, 1000), ("judged queries preceded by the searches of a person typing them", 5000, 50000), ("titles with more than 20 words", 100, 1000)],
+            Which::Typo => vec![("substitution at first", 50, 500), ("insertion at first", 50, 500), ("deletion at first", 50, 500), ("transposition at first", 50, 500), ("transposition at last", 50, 500), ("len 5", 200, 2000), ("len >20", 100, 1000), ("judged queries echoed through the registry after a locale switch of the id", 500, 5000), ("judged queries preceded by the same query under a lower limit", 1000, 10000), ("stores with a title in letters outside the BMP", 20, 200), ("stores with a word (or word pair) of more than 1024 letters", 2, 20), ("stores cleared and refilled before the judged searches", 100, 1000), ("typo letter that is an accented letter of the language", 3000, 30000), ("judged queries preceded by the searches of a person typing them", 5000, 50000), ("titles with more than 20 words", 30, 300), ("exhaustive-letter edits", 30000, 250000), ("exhaustive-letter words that are function words", 150, 150)],
+            Which::Whole => vec![("whole title", 1000, 10000), ("first last", 300, 3000), ("judged queries echoed through the registry after a locale switch of the id", 500, 5000), ("judged queries preceded by the same query under a lower limit", 1000, 10000), ("stores with a title in letters outside the BMP", 20, 200), ("stores with a word (or word pair) of more than 1024 letters", 2, 20), ("stores cleared and refilled before the judged searches", 100, 1000), ("judged queries preceded by the searches of a person typing them", 5000, 50000), ("last first", 300, 3000), ("title with function word", 50, 500), ("titles with more than 20 words", 200, 2000), ("catalogues searched while small, then grown and given limit = N", 6, 60), ("titles with more than 65 536 distinct grams", 1, 10)],
+            Which::SplitJoin => vec![("split", 2000, 20000), ("split after first letter", 200, 2000), ("judged queries echoed through the registry after a locale switch of the id", 500, 5000), ("judged queries preceded by the same query under a lower limit", 1000, 10000), ("stores with a title in letters outside the BMP", 20, 200), ("stores with a word (or word pair) of more than 1024 letters", 2, 20), ("stores cleared and refilled before the judged searches", 100, 1000), ("judged queries preceded by the searches of a person typing them", 5000, 50000), ("join", 100, 1000), ("join with 1-letter first word", 3, 30), ("titles with more than 20 words", 100, 1000), ("split followed by a separator", 20000, 200000), ("split next to symbols inside the word", 300, 3000)],
         }
     }
     fn ratios(&self) -> Vec<(&'static str, &'static str, f64, f64)> {
